@@ -118,6 +118,10 @@ Definition t_restore (nw : Z) (x : dev) : dev :=
   x <| d_shut := false |> <| d_last_restore := Some nw |>
     <| d_last_use := match d_part x with Some _ => Some nw | None => d_last_use x end |>.
 Definition t_block (b : bool) (x : dev) : dev := x <| d_block := b |>.
+(** run-time rewiring (PartFlowController.set_upstream): leaving / joining a downstream list, replacing the upstream list *)
+Definition t_down_del (z : Z) (x : dev) : dev := x <| d_down ::= filter (fun y => negb (y =? z)) |>.
+Definition t_down_add (z : Z) (x : dev) : dev := x <| d_down ::= fun l => l ++ [z] |>.
+Definition t_up (l : list Z) (x : dev) : dev := x <| d_up := l |>.
 Definition t_budget (z : Z) (x : dev) : dev := x <| d_budget := Some z |>.
 
 (** _schedule_pass_part_downstream (a no-op for Sink) *)
@@ -634,8 +638,29 @@ Inductive uop :=
 | UBlock (d : Z) (b : bool)
 | UAdjust (d z : Z)
 | UOffset (d z : Z)                  (* device.offset_next_cycle_time(z), called from outside *)
+| URewire (d : Z) (ups : list Z)     (* device.set_upstream(ups) while the simulation is in progress *)
 | UAddRes (n a : Z)
 | UCreateWO (m t g : Z).
+
+(** PartFlowController.set_upstream at run time.  The validation loop comes first (an upstream that is the device itself:
+    AssertionError, nothing changed).  A PartHandler that is waiting for a part restarts its waiting time.  Then the device leaves
+    the downstream lists of all its old upstreams and joins, at the end, those of the new ones; each new upstream is told that
+    space may have become available ([space_available_downstream]).  Rewiring a sink or a group output in as an upstream raises
+    half-way in the implementation; here it is refused before anything changes (outside the well-posed class). *)
+Definition bad_up (d : Z) (w : fw) (u : Z) : bool :=
+  (u =? d) || negb (amem u (f_devs w)) ||
+  match d_kind (getd w u) with KSink | KGroupOut | KGroupIn => true | _ => false end.
+
+Definition rewire (fuel : nat) (nw : Z) (w : fw) (d : Z) (ups : list Z) : fw :=
+  let x := getd w d in
+  if existsb (bad_up d w) ups then failf w E_ASSERT else
+  let w0 := if is_holder (d_kind x) then
+              match d_wait_since x with Some _ => updd w d (dev_set_wait nw true true) | None => w end
+            else w in
+  let w1 := fold_left (fun w' u => updd w' u (t_down_del d)) (d_up x) w0 in
+  let w2 := updd w1 d (t_up ups) in
+  fold_left (fun w' u => if existsb (Z.eqb d) (d_down (getd w' u)) then w'
+                         else signal fuel nw false (updd w' u (t_down_add d)) u) ups w2.
 
 Definition run_uop (fuel : nat) (nw : Z) (w : fw) (o : uop) : fw :=
   if negb (okf w) then w else
@@ -658,6 +683,7 @@ Definition run_uop (fuel : nat) (nw : Z) (w : fw) (o : uop) : fw :=
       if was_empty then sched_pass nw 0 w1 d else w1
     end
   | UOffset d z => updd w d (t_add_offset z)
+  | URewire d ups => rewire fuel nw w d ups
   | UAddRes n a => rm_call w (add_resources nw n a)
   | UCreateWO m t g => create_wo nw m t g w
   end.
